@@ -225,6 +225,10 @@ def run_split(mods, data, sr, sw, ch, durs, flags, container="bytes", spelling=N
         put("sampling_rate", "sr", sr, sr * 2 + 1)
         put("sample_width", "sw", sw, 4 if sw != 4 else 2)
         put("channels", "ch", ch, ch + 1)
+    if reader_input and extra and extra.get("reader_aw"):
+        # C06: "for an AudioReader input w is the reader's block duration": an analysis_window passed along with a reader (a shared dict of
+        # split options) must not count
+        kw[extra["reader_aw"][0]] = extra["reader_aw"][1]
     if not reader_input:
         put("analysis_window", "aw", durs["analysis_window"], durs["analysis_window"] * 3)
         if max_read is not None:
@@ -632,10 +636,14 @@ def check(prop, tier, replay=None):
             hop = None
             if rdr and case["B"] >= 2 and rng.random() < .5:
                 hop = (case["B"] // 2 + 0.5) / case["sr"]       # overlapping reader: w is still the reader's BLOCK duration
+            xtra = {"hop_dur": hop} if hop else {}
+            if rdr and rng.random() < .5:
+                w_ = to_floats(case["units"])["analysis_window"]
+                xtra["reader_aw"] = (rng.choice(["analysis_window", "aw"]), rng.choice([w_ * 2, w_ / 2, 0.05, w_ * 3, 0.01]))
             ev = run_split(M, data, case["sr"], case["sw"], case["ch"], to_floats(case["units"]), case["flags"],
-                           container="reader" if rdr else "bytes", extra={"hop_dur": hop} if hop else None)
+                           container="reader" if rdr else "bytes", extra=xtra or None)
             traces.append({"c": cfg_of(case["units"], case["sr"], case["B"], case["flags"], rdr=rdr), "ev": ev,
-                           "info": f"{'AudioReader input hop=%s' % hop if rdr else 'bytes'} fmt={case['sw']}x{case['ch']}"})
+                           "info": f"{'AudioReader input hop=%s also given %s' % (hop, xtra.get('reader_aw')) if rdr else 'bytes'} fmt={case['sw']}x{case['ch']}"})
     elif prop == "C09":
         leg_m(V, wd, tier, ["TypeOK", "C05M"])
         for i in range(25 if tier == "quick" else 1500):
